@@ -7,6 +7,8 @@ From ArmV Require Import Lib.PyZ Lib.Monad Lib.Machine Spec.Pseudocode Spec.Expe
 From Gen Require Import enums bits_ops shift regviews records hubm opsyn core exec.
 Import ListNotations.
 Open Scope Z_scope.
+(* a sentence that runs this long no longer matches the code it was written for: fail instead of searching *)
+Set Default Timeout 240.
 Ltac Zify.zify_post_hook ::= Z.to_euclidean_division_equations.
 
 (* UDF raises the Undefined Instruction exception when its condition passes, with the state untouched *)
@@ -69,4 +71,22 @@ Proof.
   replace (negb (bit (getl (sys s) 16) 0 =? 1) || (iset_of s =? 3)) with true by (destruct Hj; lia).
   rewrite bind_ret_tt. rewrite (b_get cfg) by (try exact H; lia).
   rewrite !bind_ret_tt, bx_write_pc_spec; [reflexivity|apply H|apply H|apply H|apply (word_rget cfg); [exact H|lia]].
+Qed.
+
+(* DSB (without the Virtualization Extensions, which only widen the domain) stops at the not-implemented barrier stub: whichever
+   option is encoded, the state is untouched.  BKPT is the not-implemented debug event.  SMC without the Security Extensions or from
+   User mode is UNDEFINED. *)
+Theorem Dsb_ok cfg instr option s : cond_holds s -> have_virt cfg = 0 -> Dsb_execute cfg instr option s = Exc ENotImpl s.
+Proof.
+  intros Hc Hv. unfold Dsb_execute. rewrite guard_pass by exact Hc. rewrite bind_ret_tt.
+  match goal with |- context [let '(v_domain, v_types) := ?e in _] => destruct e as [dom typ] end.
+  rewrite b_is_secure, b_is_hyp. unfold have_virt in Hv. unfold conf_have_virt_ext. rewrite Hv. cbn [truthy Z.eqb negb andb]. cbv iota.
+  rewrite bind_ret_run. reflexivity.
+Qed.
+Theorem Bkpt_ok instr : Bkpt_execute instr = Err ENotImpl.
+Proof. reflexivity. Qed.
+Theorem Smc_undefined cfg instr s : cond_holds s -> cfg_have_security_ext cfg = 0 \/ mode_of s = 16 -> Smc_execute cfg instr s = Exc EUndefined s.
+Proof.
+  intros Hc Hd. unfold Smc_execute. rewrite guard_pass by exact Hc. rewrite bind_ret_tt. rewrite b_not_user. unfold conf_have_security_ext.
+  destruct Hd as [E|E]; rewrite E; cbn [truthy Z.eqb negb andb B2Z]; [reflexivity|]. rewrite andb_false_r. reflexivity.
 Qed.
